@@ -43,7 +43,7 @@ class Streams2(Streams):
                 OH, OW = H * sy, W * sx
             else:
                 OH, OW = H * sy + max(kh - sy, 0), W * sx + max(kw - sx, 0)
-            if i >= 2 and rng.random() < 0.05:       # a shape the supported-operator check would refuse: the model must agree all the same
+            if i >= 2 and (sy, sx) != (1, 1) and rng.random() < 0.05:       # a shape the supported-operator check would refuse: the model must agree all the same
                 OH += rng.choice([1, 2])
             ifm = self.tens([1, H, W, C], DataType.int8, 0.05, 3, "ifm")
             wv = np.random.RandomState(rng.getrandbits(32)).randint(-127, 128, [kh, kw, C, O])
@@ -387,6 +387,97 @@ class Streams2(Streams):
                 self.disagree("_get_slice_offsets/constraint_slice_ranges", f"mode,shape,begin,end,begin_mask,end_mask,shrink,new_axis={desc}: model '{m}', real '{real}'",
                               {"stream": "slice", "case": desc, "request": rq, "semantic_request": sq}, sm_, key=key)
 
+    # ---- 13. PRELU -------------------------------------------------------------------------------------------
+    def stream_prelu(self, n):
+        from ethosu.vela import tflite_graph_optimiser as go
+        from ethosu.vela.data_type import DataType
+        from ethosu.vela.operation import Op
+
+        ck, rng = self.ck, self.rng
+        rows = []
+        for i in range(n):
+            dt = rng.choice([DataType.int8, DataType.int8, DataType.uint8, DataType.int16])
+            lo, hi = self.qrange(dt)
+            adt = dt
+            alo, ahi = self.qrange(adt)
+            C = rng.choice([1, 4, 8])
+            kind = rng.choice(["uniform", "uniform", "uniform0", "small", "big", "nonconst"])
+            za = 0 if adt == DataType.int16 else rng.choice([0, 0, rng.randint(alo, ahi)])
+            sa = float(np.float32(2.0 ** -rng.randint(5, 9) * rng.uniform(1.0, 1.9)))
+            if kind == "uniform":
+                q = rng.randint(alo, ahi)
+                av = [q] * C
+            elif kind == "uniform0":
+                av = [za] * C
+            elif kind == "small":       # every alpha below one
+                top = min(ahi, za + int(0.99 / sa))
+                av = [rng.randint(alo, max(alo, top)) for _ in range(C)]
+            else:
+                av = [rng.randint(alo, ahi) for _ in range(C)]
+            eq = rng.random() < 0.4
+            si = self.rand_scale()
+            zi = 0 if dt == DataType.int16 else rng.randint(lo, hi)
+            so, zo = (si, zi) if eq else (self.rand_scale() * 1.3, 0 if dt == DataType.int16 else rng.randint(lo, hi))
+            ifm = self.tens([1, 2, 2, C], dt, si, zi, "ifm")
+            ofm = self.tens([1, 2, 2, C], dt, so, zo, "ofm")
+            alpha = self.const([1, 1, C], adt, np.array(av).reshape(1, 1, C), sa, za, "alpha")
+            if kind == "nonconst":
+                alpha = self.tens([1, 1, C], adt, sa, za, "alpha_var")
+            op = self.testutil.create_op(Op.Prelu, [ifm, alpha], ofm, attrs={})
+            op.run_on_npu = True
+            real_eq = bool(ifm.quantization.is_scaling_equal(ofm.quantization))
+            sem = None
+            try:
+                out = go.convert_prelu(op, self.arch, None)
+                if out.type == Op.Relu:
+                    real = "ok relu"
+                elif out.type == Op.LeakyRelu:
+                    a_, m_, s_ = out.attrs["alpha_scaling"]
+                    real = f"ok lrelu {int(a_)}"
+                    if dt != DataType.int16:
+                        # the table the next rewrite builds from `alpha_scaling`, against the reference PRELU on the whole type range
+                        lut_op = go.convert_lrelu(out, self.arch, None)
+                        if lut_op.activation_lut is not None:
+                            tbl = [int(x) for x in np.asarray(lut_op.activation_lut.values).reshape(-1)]
+                            sem = (f"rwsem2_prelu_lut {zi} {zo} {av[0]} {za} {f32bits(si)} {f32bits(sa)} {f32bits(so)} {lo} {hi} " + " ".join(map(str, tbl)))
+                        else:
+                            real += " ?no-lut:" + lut_op.type.name
+                elif out.type == Op.Maximum:
+                    mul = out.inputs[0].ops[0]
+                    second = out.inputs[1]
+                    idm = int(second is not ifm)
+                    ok_struct = mul.type == Op.Mul and mul.inputs[0] is ifm and mul.inputs[1] is alpha and \
+                        (second is ifm or (second.ops[0].type == Op.Mul and second.ops[0].inputs[0] is ifm and
+                                           int(np.asarray(second.ops[0].inputs[1].values).reshape(-1)[0]) == 1))
+                    real = f"ok mulmax {idm}" if ok_struct else "?max-structure"
+                elif out.type == Op.Add:
+                    mul, relu = out.inputs[0].ops[0], out.inputs[1].ops[0]
+                    mn = mul.inputs[0].ops[0] if mul.inputs[0].ops else None
+                    ok_struct = mul.type == Op.Mul and mul.inputs[1] is alpha and relu.type == Op.Relu and relu.inputs[0] is ifm and mn is not None and \
+                        mn.type == Op.Minimum and mn.inputs[0] is ifm and int(np.asarray(mn.inputs[1].values).reshape(-1)[0]) == 0 and \
+                        mn.inputs[1].quantization.zero_point == 0 and out.explicit_scaling is not None and \
+                        list(out.explicit_scaling.multiplier) == [1] and list(out.explicit_scaling.shift) == [0]
+                    real = "ok minmulreluadd" if ok_struct else "?add-structure"
+                else:
+                    real = "?" + out.type.name
+            except Exception as e:  # noqa: B902
+                real = "raises:" + type(e).__name__ + ":" + str(e)[:50]
+            rows.append(((self.dtname(dt), kind, C, tuple(av[:3]), za, real_eq), f"rw2_prelu {int(kind != 'nonconst')} {min(av)} {max(av)} {za} {f32bits(sa)} {int(real_eq)}",
+                         real, sem))
+        outs = self.model([r[1] for r in rows])
+        sem_outs = iter(self.model([r[3] for r in rows if r[3] is not None]))
+        for (desc, rq, real, sq), m in zip(rows, outs):
+            self.evaluations += 1
+            sm = next(sem_outs) if sq is not None else "no-table"
+            ck.count("rw2_prelu_cases")
+            ck.count("rw2_prelu_" + (m.split()[1] if m.startswith("ok ") else m))
+            if sq is not None:
+                ck.count("rw2_prelu_tables_judged")
+            self.nontrivial.add(("prelu",) + desc)
+            if m != real or sm.startswith("fail") or sm.startswith("err"):
+                self.disagree("convert_prelu", f"dtype,kind,C,alpha,alpha zp,scaling equal={desc}: model '{m}', real '{real}'",
+                              {"stream": "prelu", "case": desc, "request": rq, "semantic_request": (sq or "")[:3000]}, sm)
+
     # ---- driver ------------------------------------------------------------------------------------
     def run(self):
         t = self.ck.thorough
@@ -394,6 +485,7 @@ class Streams2(Streams):
         self.stream_groups(1000 if t else 200)
         self.stream_mean(2000 if t else 400)
         self.stream_slice(4000 if t else 800)
+        self.stream_prelu(2000 if t else 400)
 
 
 def run(ck, base=None):
